@@ -190,8 +190,8 @@ theorem onDown_rel {s e} (h : Rel s e) : Rel (onDown s).1 (e.key .down) ∧ noBa
       rw [hk]
       exact ⟨⟨by simp [RefEd.line], by simp, h.hist, by simp, by simp⟩, noBad_tag_tx _ _ _⟩
 
-theorem onKey_rel (cfg : Cfg) (ns : Nodes) {s : St} {e : RefEd} (h : Rel s e) (k : Key) (hk : k ≠ .enter) :
-    Rel (onKey cfg ns s k).1 (e.key k) ∧ noBad (onKey cfg ns s k).2 := by
+theorem onKey_rel (cfg : Cfg) (ns : Nodes) (feed : Feed) {s : St} {e : RefEd} (h : Rel s e) (k : Key) (hk : k ≠ .enter) :
+    Rel (onKey cfg ns feed s k).1 (e.key k) ∧ noBad (onKey cfg ns feed s k).2 := by
   cases k with
   | char c => exact onChar_rel h c
   | enter => exact absurd rfl hk
@@ -205,14 +205,14 @@ theorem onKey_rel (cfg : Cfg) (ns : Nodes) {s : St} {e : RefEd} (h : Rel s e) (k
   | endKey => exact onEnd_rel h
   | delete => exact onDelete_rel h
 
-theorem runKeys_rel (cfg : Cfg) (ns : Nodes) (s : St) (e : RefEd) (ks : List Key) (h : Rel s e)
-    (hne : Key.enter ∉ ks) : Rel (runKeys cfg ns s ks).1 (e.run ks) ∧ noBad (runKeys cfg ns s ks).2 := by
+theorem runKeys_rel (cfg : Cfg) (ns : Nodes) (feed : Feed) (s : St) (e : RefEd) (ks : List Key) (h : Rel s e)
+    (hne : Key.enter ∉ ks) : Rel (runKeys cfg ns feed s ks).1 (e.run ks) ∧ noBad (runKeys cfg ns feed s ks).2 := by
   induction ks generalizing s e with
   | nil => exact ⟨h, noBad_nil⟩
   | cons k ks ih =>
     have hk : k ≠ .enter := fun hh => hne (hh ▸ List.mem_cons_self)
-    have h1 := onKey_rel cfg ns h k hk
-    have h2 := ih (onKey cfg ns s k).1 (e.key k) h1.1 (fun hh => hne (List.mem_cons_of_mem _ hh))
+    have h1 := onKey_rel cfg ns feed h k hk
+    have h2 := ih (onKey cfg ns feed s k).1 (e.key k) h1.1 (fun hh => hne (List.mem_cons_of_mem _ hh))
     exact ⟨h2.1, noBad_append h1.2 h2.2⟩
 
 end Tbox.C13
